@@ -65,6 +65,17 @@ def check_navigation(root):
     if not isinstance(root, Node):
         return bad
     alln = list({id(x): x for x in nodes_in(root, True)}.values())
+    # straight after the parse, before anything has asked a node for its children: every stored node names its holder as parent
+    lazy = 0
+    for n in alln:
+        for k, v in vars(n).items():
+            if not k.startswith('_') and k not in ('ctx', 'parseinfo'):
+                for c in nodes_in(v):
+                    if c.parent is not n:
+                        lazy += 1
+    if lazy:
+        bad.append('LAZY-PARENT: straight after the parse stored nodes do not name their holder as parent (.parent is None until children() of '
+                   'the holder has been called)')
     for n in alln:
         want, seen_ids = [], set()
         for k, v in vars(n).items():
